@@ -21,3 +21,12 @@ package chord
 //@   ensures ok == spec.validInterval(a.Degree.Value, note.qual(a.Degree.Name))
 //@   ensures ok ==> s == spec.intervalSize(a.Degree.Value, note.qual(a.Degree.Name))
 //@   ensures !ok ==> s == 0
+
+// ---- unnamed or empty dictionary entries are refused (C09, C16) ----
+//@ func Chord.validate returns (err)
+//@   pure
+//@   ensures (err == nil) == (c.Name != "" && (c.Meta.Display != "" || c.Name == "MajorTriad") && (len(c.Attributes) != 0 || c.Extends != ""))
+
+//@ func Attribute.validate returns (err)
+//@   pure
+//@   ensures (err == nil) == (a.Name != "")
